@@ -9,7 +9,7 @@ Decides (structural):
                        target's topological rank is strictly greater than the hyperedge's
   R-COST-NO-WRAP       integer Cost::combine cannot wrap or panic (no plain/wrapping add)
 """
-from ..util import guards, fmt_atoms
+from ..util import guards, may_guards, reachable_without_edges, fmt_atoms
 
 EXPLANATION = (
     "Static clause of C07 decided on MIR: the subsumed/unextractable/hidden row filters the statement names are applied at "
@@ -120,7 +120,7 @@ def check_extractable(chk, prog):
         return
     for c in sites:
         gs = guards(f, c.bb)
-        have = {"unextractable": False, "internal_hidden": False, "subtype": False, "term_constructor": False}
+        have = {"unextractable": False, "internal_hidden": False}
         for g in gs:
             if g.get("truth") is False and g["desc"][0] == "val":
                 at = f.origins(g["desc"][1])
@@ -128,27 +128,27 @@ def check_extractable(chk, prog):
                     p = a[-1] if a[0] in ("param", "call", "local") else ()
                     if p and p[-1] in ("unextractable", "internal_hidden"):
                         have[p[-1]] = True
+        # the disjunction (subtype == Constructor || term_constructor.is_some()): every path to the
+        # insertion takes the true edge of one of the two tests
+        dis_edges = set()
+        for g in may_guards(f, c.bb):
             if g.get("rel") == "Eq":
                 for side in (g["a"], g["b"]):
-                    for a in f.origins(side):
-                        p = a[-1] if a[0] in ("param", "call", "local") else ()
-                        if p and p[-1] == "subtype":
-                            have["subtype"] = True
+                    if any(a[-1] and a[-1][-1] == "subtype" for a in f.origins(side) if a[0] in ("param", "call", "local")):
+                        dis_edges.add(g["at"])
             if g.get("truth") is True and g["desc"][0] == "call" and g["desc"][1].p.endswith("Option::is_some"):
-                for a in f.origins(g["desc"][1].args[0]):
-                    p = a[-1] if a[0] in ("param", "call", "local") else ()
-                    if p and p[-1] == "term_constructor":
-                        have["term_constructor"] = True
-        # the disjunction: at least one of the two tests guards every insertion; both tests must exist in the function
-        ok = have["unextractable"] and have["internal_hidden"] and (have["subtype"] or have["term_constructor"])
-        missing = [k for k, v in have.items() if not v]
+                if any(a[-1] and a[-1][-1] == "term_constructor" for a in f.origins(g["desc"][1].args[0]) if a[0] in ("param", "call", "local")):
+                    dis_edges.add(g["at"])
+        dis_ok = bool(dis_edges) and not reachable_without_edges(f, c.bb, dis_edges)
+        ok = have["unextractable"] and have["internal_hidden"] and dis_ok
+        missing = [k for k, v in have.items() if not v] + ([] if dis_ok else ["subtype == Constructor || term_constructor.is_some()"])
         chk.judge(ok, R, f"{f.name}:rev_index-insert:{c.p.rsplit('::', 1)[1]}",
                   "insertion guarded by !unextractable, !internal_hidden and the constructor/view test",
                   f"insertion into the reverse index is not guarded by: {missing}", c.loc)
     # both halves of the disjunction must still be tested somewhere on the way
     tests = {"subtype": False, "term_constructor": False}
     for c in sites:
-        for g in guards(f, c.bb):
+        for g in may_guards(f, c.bb):
             if g.get("rel") in ("Eq", "Ne"):
                 for side in (g["a"], g["b"]):
                     if any(a[-1] and a[-1][-1] == "subtype" for a in f.origins(side) if a[0] in ("param", "call", "local")):
